@@ -71,7 +71,7 @@ def rand_desc(rnd, ty=None, on=None, nbytes=None):
             rem, rnd.choice([0, 3600, 86399, rnd.randrange(86400)]),
             rnd.choice([0, 1, 99, 100, rnd.randrange(101)]), rnd.choice(DIRS), rnd.choice(world.MODE_NAMES), rnd.choice([0, 255, 256, 65535, rnd.randrange(1000)]),
             rnd.choice([0, 16, 30, 255, rnd.randrange(256)]), rnd.choice(world.FAN_NAMES), int(rnd.random() < .5),
-            bytes(rnd.choice(b"ABCELZM0123456789") for _ in range(8))]
+            bytes(rnd.choice(b"ABCELZMabcelz0123456789-_ ") for _ in range(8))]
 
 
 def describe(c): return "broadcast of %s on=%s name=%r power=%s rem=%s auto=%s pos=%s dir=%s mode=%s t10=%s target=%s fan=%s swing=%s" % (
@@ -80,7 +80,7 @@ def describe(c): return "broadcast of %s on=%s name=%r power=%s rem=%s auto=%s p
 
 def mk_case(rnd, desc):
     d = [x.hex() if isinstance(x, bytes) else x for x in desc]
-    return {"desc": d, "filler": world.rand_bytes(rnd, 170).hex()}
+    return {"desc": d, "filler": world.rand_bytes(rnd, 170).hex(), "state_byte": rnd.choice([None, None, 0, 2, 4, 0x81, 0xff, rnd.randrange(2, 256)])}
 
 
 def desc_args(c): return [bytes.fromhex(x) if i in (2, 4, 5, 6, 17) else x for i, x in enumerate(c["desc"])]
@@ -89,9 +89,13 @@ def desc_args(c): return [bytes.fromhex(x) if i in (2, 4, 5, 6, 17) else x for i
 def encode(cases):
     res = lib.run_model([lib.req("bcast_encode", desc_args(c), bytes.fromhex(c["filler"])) for c in cases])
     out = []
-    for r in res:
+    for c, r in zip(cases, res):
         if r == "-": raise lib.BuildError("Spec encoder refused a generated description")
-        h, exp = r.split(";", 1); out.append((bytes.fromhex(h), exp))
+        h, exp = r.split(";", 1); d = bytearray.fromhex(h)
+        # a device that is not ON may report any state byte but 01 (the Spec: ON iff the byte is 01); the case says which
+        sb = c.get("state_byte")
+        if sb is not None and not c["desc"][1] and len(d) in (165, 168): d[133 if len(d) == 165 else 137] = sb
+        out.append((bytes(d), exp))
     return out
 
 
